@@ -455,7 +455,11 @@ def py_lex(t, sources=()):
             j = i + 1
             while j < n and (_is_id_char(t[j]) or t[j] in ".*?-^[]"):
                 j += 1
-            out.append("xSECTION_NAME")
+            out.append("s" + hx(t[i:j]))
+            i = j
+        elif t.startswith("{{", i) and _blob_end(t, i) is not None:
+            j, digits = _blob_end(t, i)
+            out.append("b" + digits)
             i = j
         elif c == '"':
             eol = t.find("\n", i + 1)
@@ -482,9 +486,26 @@ def py_lex(t, sources=()):
                     i += len(lit)
                     break
             else:
-                out.append("xERROR")
+                out.append("x@" if c == "@" else "xERROR")
                 i += 1
     return out
+
+
+def _blob_end(t, i):
+    """BINARY_BLOB `{{` (two hex digits | blank)+ `}}` at i: (end, digits) or None"""
+    j, digits, items = i + 2, [], 0
+    while True:
+        if t.startswith(" ", j):
+            j += 1
+        elif j + 1 < len(t) and _is_hex(t[j]) and _is_hex(t[j + 1]):
+            digits.append(t[j:j + 2])
+            j += 2
+        else:
+            break
+        items += 1
+    if items and t.startswith("}}", j):
+        return j + 2, "".join(digits)
+    return None
 
 
 class _P:
@@ -1281,7 +1302,7 @@ def run(ck):
     # it references neither Generated/ nor the builder-side model, so its answers do not depend on /repo.
     ck.spec_ops = {"rom21"}
     mdl = Model(drv)
-    for fn in (expr_streams, lexer_stream, duplicate_stream, program_streams):
+    for fn in (expr_streams, token_stream, lexer_stream, duplicate_stream, program_streams):
         try:
             fn(ck, real, mdl, rng)
         except Exception as exc:  # noqa: BLE001
@@ -1602,6 +1623,135 @@ def expr_streams(ck, real, drv, rng):
             w = ref_canon(pa, env)
             s.expect(g == w, {"text": t, "pre": pre, "parsed_as": pw}, "an accepted expression does not evaluate to the arithmetic value of its "
                      "syntax tree (tree as parsed by the reference parser)", g, w)
+
+
+CMP_NAMES = ("LT", "LE", "GT", "GE", "EQ", "NE", "LAND", "LOR")
+OP_NAMES = ("PLUS", "MINUS", "TIMES", "DIVIDE", "MOD", "LSHIFT", "RSHIFT", "AND", "OR", "XOR")
+
+
+def real_tokens(text, sources):
+    """`BDLexer().tokenize(text)` in the driver's token notation (type AND value of every token); "E" where a token rule raises"""
+    from spsdk.sbfile.sb2.sly_bd_lexer import BDLexer, Variable
+    lx = BDLexer()
+    for nm in sources:
+        lx.add_source(Variable(nm, "source", "x"))
+    out = []
+    try:
+        with time_limit(20):
+            toks = list(lx.tokenize(text))
+    except Hang:
+        return "HANG"
+    except Exception:  # noqa: BLE001
+        return "E"
+    kw_types = set(w.upper() for w in KEYWORDS)
+    for tk in toks:
+        ty, v = tk.type, tk.value
+        if ty == "INT_LITERAL":
+            out.append("n%d" % v if isinstance(v, int) and not isinstance(v, bool) else "n?%r" % (v,))
+        elif ty == "IDENT":
+            out.append("i" + str(v))
+        elif ty == "SOURCE_NAME":
+            out.append("S" + str(v))
+        elif ty == "DEFINED":
+            out.append("D")
+        elif ty == "ERROR" and v != "error":
+            out.append("xERROR")
+        elif ty in kw_types and isinstance(v, str) and v.upper() == ty:
+            out.append("k" + ty)
+        elif ty in OP_NAMES:
+            out.append("o" + str(v))
+        elif ty in CMP_NAMES:
+            out.append("c" + str(v))
+        elif ty == "LNOT":
+            out.append("!")
+        elif ty in ("LPAREN", "RPAREN", "PERIOD"):
+            out.append(str(v))
+        elif ty == "INT_SIZE":
+            out.append("z" + str(v))
+        elif ty == "STRING_LITERAL":
+            out.append("q" + hx(str(v)[1:-1]))
+        elif ty == "SECTION_NAME":
+            out.append("s" + hx(str(v)))
+        elif ty == "BINARY_BLOB":
+            out.append("b" + str(v))
+        else:
+            out.append("x" + str(ty))
+    return "T " + " ".join(out)
+
+
+def token_stream(ck, real, drv, rng):
+    """the lexer itself, token by token (type and value), on texts built from every token class and on mutated texts"""
+    s = ck.stream("lexer_tokens", "texts of 1..12 pieces drawn from EVERY token class of sly_bd_lexer.py (identifiers, all keywords, source names, "
+                  "true/false/yes/no, decimal / K / 0x / 0X / character-literal numbers incl. leading zeros, string literals, $section globs, "
+                  "{{binary blobs}}, every operator and delimiter, @, int-size suffixes, # // /* */ comments, junk), joined by blank / "
+                  "nothing / newline / tab, then with one character deleted, doubled or replaced: `BDLexer().tokenize` (type and value of "
+                  "every token, or the rule raising) vs the Lean lexer model vs the harness's reference lexer; non-trivial = no ERROR token")
+    words = ["a", "zz", "c0de", "_x1", "img", "elf", "b", "h", "w", "K", "x", "X1", "abcdefg", "trueish", "nob"]
+    srcs_pool = ["img", "elf", "w"]
+
+    def piece():
+        k = rng.randrange(16)
+        if k == 0:
+            return rng.choice(words)
+        if k == 1:
+            return rng.choice(KEYWORDS)
+        if k == 2:
+            return str(rng.choice([0, 1, 7, 10, 255, 4096, rng.getrandbits(32), rng.getrandbits(70)]))
+        if k == 3:
+            return rng.choice(["1K", "64K", "0K", "%dK" % rng.getrandbits(12), "007", "08", "000", "1KB", "2Kx", "1k", "1M", "0b11"])
+        if k == 4:
+            return rng.choice(["0x", "0X"]) + "".join(rng.choice("0123456789abcdefABCDEF") for _ in range(rng.randint(0, 9)))
+        if k == 5:
+            return "'" + rng.choice(["a", "ab", "dude", "", " ", "x;y", "\"", "K9", "\u00e9"]) + "'"
+        if k == 6:
+            return '"' + rng.choice(["", "abc", "1.00.00", "a b", "x;y", "//no", "#no", "it's", "{{aa}}"]) + '"'
+        if k == 7:
+            return "$" + rng.choice(["a", ".text", "sec_[ab]", "math*", "a-b^c?", "", "$", "x.b"])
+        if k == 8:
+            return "{{" + "".join(rng.choice(["aa", "1F", " ", "3c", "  ", "a", "g", "bb"]) for _ in range(rng.randint(0, 5))) + "}}"
+        if k in (9, 10, 11):
+            return rng.choice(SIMPLE_TOKENS)[1]
+        if k == 12:
+            return rng.choice([".b", ".h", ".w", ". b", ".x", ".bb"])
+        if k == 13:
+            return rng.choice(["# c\n", "// c \"q\"\n", "/* x */", "/* a\nb */", "/* open", "#", "//", "/**/"])
+        if k == 14:
+            return rng.choice(["@", "\\", "`", "'", '"', "12ab", "1.5", "1_0", "9z"])
+        return rng.choice(["yes", "no", "true", "false", "defined", "sizeof"])
+
+    def mutate(t):
+        if not t:
+            return t
+        i = rng.randrange(len(t))
+        m = rng.randrange(3)
+        if m == 0:
+            return t[:i] + t[i + 1:]
+        if m == 1:
+            return t[:i] + t[i] + t[i:]
+        return t[:i] + rng.choice(" .'\"$#/*{}Kx0b\n") + t[i + 1:]
+
+    n = ck.budget(4000, 80000)
+    cases = []
+    for i in range(n):
+        ps = [piece() for _ in range(rng.randint(1, 12))]
+        seps = [rng.choice([" ", " ", " ", "", "\n", "\t", "  "]) for _ in ps]
+        t = "".join(p + sp for p, sp in zip(ps, seps))
+        if i % 3 == 2:
+            t = mutate(t)
+        srcs = [x for x in srcs_pool if rng.random() < 0.5]
+        cases.append((t, srcs))
+    models = drv.batch(["K %s %s" % (hx(t), " ".join(srcs)) for t, srcs in cases])
+    for (t, srcs), m in zip(cases, models):
+        g = real_tokens(t, srcs)
+        inp = {"text": t, "sources": srcs}
+        s.note(t, nontrivial=g != "E" and "xERROR" not in g, cls="raises" if g == "E" else ("error-token" if "xERROR" in g else "clean"))
+        cmp_model(s, inp, g, m)
+        try:
+            w = "T " + " ".join(py_lex(t, srcs))
+        except LexValue:
+            w = "E"
+        s.expect(g == w, inp, "the lexer does not split the text into the tokens (type and value) the BD language defines "
+                 "(reference lexer of the harness)", g, w)
 
 
 def lexer_stream(ck, real, drv, rng):
